@@ -9,9 +9,11 @@ import numpy as np
 import pandas as pd
 
 from common import R
+from common import all_pre_build as pre_build  # noqa: F401  (regenerates Generated/GeoWiring.lean — translate_geo.py — from the tested tree)
 
 LEAN_MODULES = ["PyomaVerif.Props.C19", "PyomaVerif.Props.C19Geo2", "PyomaVerif.Props.C19Plot", "PyomaVerif.Mutants.C19",
-                "PyomaVerif.Mutants.C19Geo2"]
+                "PyomaVerif.Mutants.C19Geo2", "PyomaVerif.Props.WiringGeo", "PyomaVerif.Props.C19Lines", "PyomaVerif.Mutants.C19Lines",
+                "PyomaVerif.Props.C19Why", "PyomaVerif.Props.C19Merge"]
 THEOREMS = [
     "PV.C19.C19_flatten_single",
     "PV.C19.C19_flatten_multi",
@@ -76,19 +78,58 @@ THEOREMS = [
     "PV.C19M.sign_on_coord_displace_fails",
     "PV.C19M.scale_twice_fails",
     "PV.C19M.table_order_arrows_fails",
+    # geometry defined from a file (clause 1): obligations over the source + the executed model of the entry points
+    "PV.C19.C19_by_file_wiring",
+    "PV.C19.C19_by_file_reads_path",
+    "PV.C19.C19_by_file_same_as_def_geo",
+    "PV.C19.C19_by_file_other_raises",
+    "PV.C19.C19_def_geo_wiring",
+    "PV.C19.C19_by_file_covers_result",
+    "PV.C19.C19_by_file_geo1",
+    "PV.C19.C19_by_file_geo1_ok_iff",
+    "PV.C19.C19_by_file_reject_iff_geo1",
+    "PV.C19.C19_by_file_zero_based_geo1",
+    "PV.C19.astypeFloat_numeric",
+    "PV.C19.C19_by_file_geo2",
+    "PV.C19.C19_by_file_geo2_error",
+    "PV.C19.C19_by_file_zero_based_geo2",
+    "PV.C19.C19_by_file_other",
+    # the zero-based line arrays consumed by plt_lines (clause 9)
+    "PV.C19.pyIndex_shift",
+    "PV.C19.segOf_shift",
+    "PV.C19.C19_plot_lines_one_based",
+    "PV.C19.C19_plot_lines_past_end",
+    "PV.C19.C19_plot_geo2_lines",
+    "PV.C19.C19_plot_geo2_lines_one_based",
+    "PV.C19.C19_plot_geo1_lines",
+    "PV.C19.C19_plot_geo1_lines_one_based",
+    "PV.C19M.oldpoints_lines_fails",
+    "PV.C19M.noshift_lines_fails",
+    # which check fires (clauses 10/11), and the C02 / C19 models of flatten_sns_names are one
+    "PV.C19.firstWhy_of_first",
+    "PV.C19.geo1Pre_eq_firstWhy",
+    "PV.C19.geo2Pre_eq_firstWhy",
+    "PV.C19.C19_geo1_first_why",
+    "PV.C19.C19_geo2_first_why",
+    "PV.C19.C19_missing_first",
+    "PV.C19.C19_flatten_eq_merge",
 ]
 RULE = (
     "correspondence: generated sheet dictionaries (1..12 sensor names, single setup or 2..4 setups with 1..3 references, "
     "row-permuted coordinate/direction tables with extra rows, optional sheets present / absent / empty, INFO sheet, every "
-    "single-fault corruption, all name forms) sent as exact rationals / strings to the Lean model and to check_on_geo1/2, "
+    "single-fault corruption and pairs of corruptions (which check fires: message of the first failing check), all name forms) sent as exact rationals / strings to the Lean model and to check_on_geo1/2, "
     "flatten_sns_names, def_geo1/def_geo2 (valid sets in every argument form AND the same single faults, incl. DataFrame "
     "directions with renamed / re-ordered row labels and mapping / sign frames labelled in another order), dfphi_map_func: same exception class or the same tables cell by cell "
     "(numbers exactly; mapped values and displacements at 1e-12); the display pipeline def_geo1 + plot_mode_geo1 / def_geo2 + "
     "plot_mode_geo2_mpl against the model's defPlotGeo1 / defPlotGeo2: start and end point of every arrow, every displaced point, as "
     "held by the Agg artists (every argument form, scaleF in {0, 0.5, 1, 2, 5, 10, -1.5}, colour fixed or 'cmap', background present "
-    "or absent, shapes of another length and single table faults; 1e-11). oracle: the statement with plain dict look-ups on the "
+    "or absent, shapes of another length and single table faults; 1e-11), and the LINE artists of both plots (sensor lines between the "
+    "sensor positions / the displaced points, background lines between background nodes; an index past the last point, a 0 and a NaN "
+    "in the one-based sheet) against defPlotGeo1Lines / defPlotGeo2Lines. oracle: the statement with plain dict look-ups on the "
     "generating spec, plus Agg artists of plot_mode_geo1 / plot_mode_geo2_mpl; every function is also used twice on the "
-    "caller's own (un-copied) tables, geometry 1 and 2 are defined from shared tables on two setup objects, and the caller's "
+    "caller's own (un-copied) tables; def_geo1_by_file / def_geo2_by_file / _def_geo_by_file with read_excel_file replaced by a "
+    "function that hands over the generated sheet dictionary (valid sets, every single fault, INFO sheet, another geo_type) "
+    "against the model's defGeoByFile, field by field, plus the path and keywords the reader received; geometry 1 and 2 are defined from shared tables on two setup objects, and the caller's "
     "tables / arrays are monitored for modification. distinct = distinct (function, shape/"
     "corruption/form) classes"
 )
@@ -249,6 +290,7 @@ WHY_MSG = {
     "cstrCols": "constraints columns names must correspond",
     "cstrRows": "constraints names (index column) must be the same",
     "mapUnknown": "could not convert string to float",
+    "invalidType": "Invalid geometry type",
 }
 
 
@@ -949,6 +991,102 @@ def corr_defgeo(ctx):
         ctx.count(f"defgeo{which}_{tag}_{model.get('err', 'ok')}")
 
 
+# ----------------------------------------------------------------------------- geometry from a file
+BYFILE_PATH = "geometry/template.xlsx"
+
+
+def call_by_file(S, which, fd, ref_ind, kw=None, geo_type=None):
+    """def_geo1_by_file / def_geo2_by_file (or `_def_geo_by_file(geo_type, ...)`) on a new setup object, with
+    `read_excel_file` as imported by support/geometry/mixin.py replaced by a function handing over the sheet dictionary
+    `fd` (openpyxl is absent; the frames are what read_excel(index_col=0) delivers).
+    -> (fields of the stored object, what the reader received, the OTHER geometry attribute)"""
+    import pyoma2.support.geometry.mixin as mixin
+
+    seen = {"calls": 0}
+
+    def fake(path, **k):
+        seen["calls"] += 1
+        seen["path"], seen["kw"] = path, k
+        return dict(fd)
+
+    orig = mixin.read_excel_file
+    mixin.read_excel_file = fake
+    try:
+        s = S()
+        if ref_ind is not None:
+            s.ref_ind = ref_ind
+        kw = kw or {}
+        if geo_type is not None:
+            s._def_geo_by_file(geo_type, BYFILE_PATH, **kw)
+        elif which == 1:
+            s.def_geo1_by_file(BYFILE_PATH, **kw)
+        else:
+            s.def_geo2_by_file(BYFILE_PATH, **kw)
+    finally:
+        mixin.read_excel_file = orig
+    if which == 1:
+        g, other = s.geo1, s.geo2
+        out = (g.sens_names, g.sens_coord, g.sens_dir, g.sens_lines, g.bg_nodes, g.bg_lines, g.bg_surf)
+    else:
+        g, other = s.geo2, s.geo1
+        out = (g.sens_names, g.pts_coord, g.sens_map, g.cstrn, g.sens_sign, g.sens_lines, g.sens_surf, g.bg_nodes, g.bg_lines, g.bg_surf)
+    return out, seen, other
+
+
+def _distinct_index_sheets(spec, rng):
+    """geo2: line and surface sheets both present and different (so that one taken for the other is seen)"""
+    spec["opt"]["sensors lines"] = gen_idx_sheet(rng, spec["P"], 2, maxrows=3)
+    spec["opt"]["sensors surfaces"] = gen_idx_sheet(rng, spec["P"], 3, maxrows=4)
+
+
+def corr_by_file(ctx):
+    """the file entry points against the model's defGeoByFile: same exception (class and check) or the same stored
+    object field by field; the reader is called once with the path and exactly the caller's keywords; the other
+    geometry attribute is left alone."""
+    rng = ctx.rng
+    S = _setup_cls()
+    has_private = hasattr(S, "_def_geo_by_file")
+    for it in range(ctx.n(70, 900)):
+        which = 1 + it % 2
+        spec = (gen_geo1 if which == 1 else gen_geo2)(rng)
+        if which == 2 and it % 4 == 1:
+            _distinct_index_sheets(spec, rng)
+        build, corrupt, cmpf, tags = (build_fd1, corrupt1, cmp_geo1, CORR1) if which == 1 else (build_fd2, corrupt2, cmp_geo2, CORR2)
+        cases = [("valid", spec, None)]
+        tg = tags[(it // 2) % len(tags)]
+        cs = corrupt(spec, tg, rng)
+        if cs is not None:
+            cases.append((tg, cs, None))
+        c = rng.random()
+        if c < 0.15 and has_private:
+            cases.append(("other_geo_type", spec, rng.choice(["geo3", "GEO1", "", "geo"])))
+        elif c < 0.3 and has_private:
+            cases.append(("private_entry", spec, f"geo{which}"))
+        elif c < 0.4 and which == 2:
+            s2 = copy.deepcopy(spec)  # a string among the point coordinates: .astype(float) refuses it
+            s2["pts"][rng.randrange(len(s2["pts"]))][rng.randrange(3)] = "u"
+            cases.append(("pts_string", s2, None))
+        for tag, sp, gt in cases:
+            fd = build(sp)
+            kw = rng.choice([{}, {}, {"sheet_name": None}, {"engine": "openpyxl", "index_col": 0}])
+            inp = {"geo_type": gt if gt is not None else f"geo{which}", "fd": fd_json(fd), "ref_ind": sp["ref_ind"]}
+            model = ctx.model("c19_by_file", **inp)
+            seen = {}
+
+            def call():
+                out, sn, other = call_by_file(S, which, fd, sp["ref_ind"], kw, gt)
+                seen.update(sn, other=other)
+                return out
+
+            res = run(call)
+            ok = cmpf(model, res)
+            if ok and res[0]:
+                ok = model.get("kind") == f"geo{which}" and seen["calls"] == 1 and seen["path"] == BYFILE_PATH and seen["kw"] == kw and seen["other"] is None
+            ctx.corr(f"def_geo{which}_by_file", ok, {**inp, "kw": sorted(kw)}, model, summarize(res),
+                     (tag, len(sp["flat"]), sp["ref_ind"] is None, tuple(sorted(sp["opt"])), model.get("err", "ok"), model.get("why")))
+            ctx.count(f"byfile{which}_{tag}_{model.get('err', 'ok')}")
+
+
 def gen_mapcase(rng):
     """a checked geometry-2 (names, mapping without NaN, constraint frame over all names or None,
     coordinates, sign) and a mode shape"""
@@ -1142,14 +1280,126 @@ def corr_plot(ctx):
         ctx.count(f"plot{which}_{tag}_{model.get('err', 'ok')}")
 
 
+def drawn_lines(S, which, args, ref_ind, phi, scale, color="red"):
+    """def_geo + plot_mode on a new setup object (Agg): every line artist of the axes as a (2, 3) array, in drawing order
+    (geo1: one per arrow first; then the background lines; then the sensor lines; last the three lines of the origin triad)"""
+    import matplotlib.pyplot as plt
+
+    s, _ = call_defgeo(S, which, args, ref_ind)
+    Phi = np.column_stack([np.zeros(len(phi)), np.array(phi, float)])
+    try:
+        if which == 1:
+            fig, ax = s.plot_mode_geo1(_res(Phi), 2, scaleF=scale)
+        else:
+            fig, ax = s.plot_mode_geo2_mpl(_res(Phi), 2, scaleF=scale, color=color)
+        return [np.column_stack([np.asarray(a, float) for a in ln._verts3d]) for ln in ax.lines]
+    finally:
+        plt.close("all")
+
+
+def _same_segs(msegs, real, tol):
+    return len(msegs) == len(real) and all(
+        seg.shape == (2, 3) and _same_orow(m[0], seg[0], tol) and _same_orow(m[1], seg[1], tol) for m, seg in zip(msegs, real))
+
+
+def corr_plot_lines(ctx):
+    """the zero-based index arrays where they are consumed: the line artists of plot_mode_geo1 / plot_mode_geo2_mpl (sensor
+    lines between the sensor positions / the DISPLACED points, background lines between background nodes) against the
+    model's defPlotGeo1Lines / defPlotGeo2Lines; malformed: an index one past the last point, 0 in a one-based sheet (numpy
+    counts -1 from the end), a NaN in the sheet."""
+    rng = ctx.rng
+    S = _setup_cls()
+    TOL = 1e-11
+    for it in range(ctx.n(40, 500)):
+        which = 1 + it % 2
+        spec = (gen_geo1 if which == 1 else gen_geo2)(rng)
+        nn = len(spec["flat"]) if which == 1 else spec["P"]
+        tag = "valid"
+        if it % 5 != 4:
+            spec["opt"]["sensors lines"] = gen_idx_sheet(rng, nn, 2, maxrows=4)
+        if it % 3 == 0:
+            nodes, m = gen_nodes(rng)
+            spec["opt"].update({"BG nodes": nodes, "BG lines": gen_idx_sheet(rng, m, 2, maxrows=3)})
+        # (surfaces are triangulated by matplotlib, which has its own checks: not part of this stream)
+        spec["opt"].pop("BG surfaces", None)
+        spec["opt"].pop("sensors surfaces", None)
+        sl = spec["opt"].get("sensors lines")
+        c = rng.random()
+        if isinstance(sl, dict) and sl["rows"] and c < 0.3:
+            sl = copy.deepcopy(sl)
+            r, k = rng.randrange(len(sl["rows"])), rng.randrange(2)
+            tag = rng.choice(["index_past_end", "zero_in_sheet", "nan_in_sheet"])
+            sl["rows"][r][k] = {"index_past_end": nn + 1, "zero_in_sheet": 0, "nan_in_sheet": NAN}[tag]
+            spec["opt"]["sensors lines"] = sl
+        if which == 1:  # (NaN coordinates are drawn as NaN; keep the points comparable)
+            spec["coord"] = {q: [0.0 if isnan(v) else v for v in row] for q, row in spec["coord"].items()}
+        form = rng.choice([f for f in FORMS if names_form(spec, f) is not None])
+        arrays = rng.random() < 0.5 and tag != "nan_in_sheet"
+        phi = [round(rng.uniform(-3, 3), 3) for _ in spec["flat"]]
+        scale = rng.choice([1, 2, 5, 0.5, -1.5])
+        color = "cmap" if (which == 2 and rng.random() < 0.25) else "red"
+        args = (defgeo1_args if which == 1 else defgeo2_args)(spec, form, arrays)
+        inp = defgeo_inp(which, args, spec["ref_ind"])
+        inp.update(phi=[R(v) for v in phi], scale=R(scale))
+        model = ctx.model(f"c19_plotlines{which}", **inp)
+        res = run(drawn_lines, S, which, args, spec["ref_ind"], phi, scale, color)
+        if "err" in model:
+            ok = err_match(model, res)
+        elif not res[0]:
+            ok = False
+        else:
+            segs = res[1]
+            na = len(spec["flat"]) if which == 1 else 0
+            nb, ns = len(model["ok"]["bg"]), len(model["ok"]["sens"])
+            # set_ax_options (add_orig) draws the three lines of the origin triad last
+            ok = (len(segs) == na + nb + ns + 3 and _same_segs(model["ok"]["bg"], segs[na:na + nb], TOL)
+                  and _same_segs(model["ok"]["sens"], segs[na + nb:na + nb + ns], TOL))
+            ctx.count(f"plotlines{which}_sens_{min(ns, 3)}_bg_{min(nb, 2)}")
+        ctx.corr(f"plot_mode_geo{which}[lines]", ok, inp, model,
+                 {"err": res[1]} if not res[0] else {"lines": [g.tolist() for g in res[1]]},
+                 (tag, form, arrays, color, "sensors lines" in spec["opt"], "BG lines" in spec["opt"], model.get("err", "ok")))
+        ctx.count(f"plotlines{which}_{tag}_{model.get('err', 'ok')}")
+
+
+def corr_two_faults(ctx, gen):
+    """two malformations at once: the exception (class and, through the message, WHICH check) is that of the model, i.e. of
+    the first failing check in the order of the code (C19_geo1_first_why / C19_geo2_first_why / C19_missing_first)"""
+    rng = ctx.rng
+    for it in range(ctx.n(60, 800)):
+        which = 1 + it % 2
+        fn = gen.check_on_geo1 if which == 1 else gen.check_on_geo2
+        ggen, build, corrupt, cmpf, tags = ((gen_geo1, build_fd1, corrupt1, cmp_geo1, [t for t in CORR1 if t != "dup_label"]) if which == 1
+                                            else (gen_geo2, build_fd2, corrupt2, cmp_geo2, CORR2))
+        spec = ggen(rng)
+        t1, t2 = rng.sample(tags, 2)
+        try:
+            c1 = corrupt(spec, t1, rng)
+            c2 = corrupt(c1, t2, rng) if c1 is not None else None
+            fd = build(c2) if c2 is not None else None
+        except Exception:  # noqa: BLE001  (the second corruption does not apply to the result of the first)
+            fd = None
+        if fd is None:
+            ctx.skipped += 1
+            continue
+        inp = {"fd": fd_json(fd), "ref_ind": c2["ref_ind"]}
+        model = ctx.model(f"c19_geo{which}", **inp)
+        res = run(fn, dict(fd), ref_ind=c2["ref_ind"])
+        ctx.corr(f"check_on_geo{which}[two faults]", cmpf(model, res), inp, model, summarize(res),
+                 (tuple(sorted((t1, t2))), model.get("err", "ok"), model.get("why")))
+        ctx.count(f"twofaults{which}_{model.get('why', model.get('err', 'ok'))}")
+
+
 def correspondence(ctx):
     gen = _gen()
     corr_flatten(ctx, gen)
     corr_geo(ctx, gen, 1)
     corr_geo(ctx, gen, 2)
+    corr_two_faults(ctx, gen)
     corr_defgeo(ctx)
+    corr_by_file(ctx)
     corr_mapphi(ctx, gen)
     corr_plot(ctx)
+    corr_plot_lines(ctx)
 
 
 # ----------------------------------------------------------------------------- oracle (from the statement)
@@ -1276,6 +1526,21 @@ def spec_json(spec):
     return s
 
 
+def _judge_lines(ctx, inp, which, spec, artists, pts):
+    """the one-based `sensors lines` sheet where it is used: line (a, b) of the sheet is drawn between the a-th and the b-th
+    displayed point, counted from one (the artists that follow are the three lines of the origin triad)"""
+    sl = spec["opt"].get("sensors lines")
+    rows = sl["rows"] if isinstance(sl, dict) else []
+    segs = [np.column_stack([np.asarray(a, float) for a in ln._verts3d]) for ln in artists]
+    good = len(segs) == len(rows) + 3
+    for (a, b), seg in zip(rows, segs):
+        good = good and seg.shape == (2, 3) and _close(seg[0], pts[a - 1]) and _close(seg[1], pts[b - 1])
+    if not good:
+        ctx.violation(f"plot-geo{which}-lines", f"plot_mode_geo{which}: line (a, b) of the one-based 'sensors lines' sheet is not drawn between the "
+                      "a-th and the b-th displayed point", inp, observed=[g.tolist() for g in segs[: len(rows)]],
+                      expected=[[list(map(float, pts[a - 1])), list(map(float, pts[b - 1]))] for a, b in rows])
+
+
 def oracle_case(ctx, kind, spec, extra=None):
     """one oracle evaluation of the real code; `kind` selects the clause of the statement"""
     gen = _gen()
@@ -1326,6 +1591,25 @@ def oracle_case(ctx, kind, spec, extra=None):
             ctx.violation(exc_sig(out, f"geo{which}-fault-{spec['fault']}-{'accepted' if ok else out}"),
                           f"check_on_geo{which}: malformed tables ({spec['fault']}) " + ("produce a geometry" if ok else f"raise {out}") + " instead of ValueError",
                           inp, observed="accepted" if ok else out, expected="ValueError")
+    elif kind in ("byfile", "byfile_fault"):
+        # clause 1: the geometry defined "from tables as read from the Excel template" (the reader replaced by the tables)
+        S = _setup_cls()
+        ok, out = run(lambda: call_by_file(S, which, build(spec), spec["ref_ind"])[0])
+        if kind == "byfile_fault":
+            if ok or out != "ValueError":
+                ctx.violation(exc_sig(out, f"def_geo{which}_by_file-fault-{spec['fault']}-{'accepted' if ok else out}"),
+                              f"def_geo{which}_by_file: malformed tables ({spec['fault']}) " + ("produce a geometry" if ok else f"raise {out}") + " instead of ValueError",
+                              inp, observed="accepted" if ok else out, expected="ValueError")
+            return
+        if not ok:
+            ctx.violation(exc_sig(out, f"def_geo{which}_by_file-valid-rejected-{out}"),
+                          f"def_geo{which}_by_file: a well-formed table set (sheets present: {sorted(fd)}) raises {out}: {LAST['msg'][:80]}",
+                          inp, observed=out, expected="geometry")
+            return
+        j = judge(spec, out)
+        if j:
+            ctx.violation(f"def_geo{which}_by_file-{j}", f"def_geo{which}_by_file: the stored geometry differs from the statement ({j})", inp,
+                          observed=summarize((True, out)))
     elif kind == "defgeo":
         S = _setup_cls()
         form, arrays = extra["form"], extra["arrays"]
@@ -1452,6 +1736,8 @@ def oracle_case(ctx, kind, spec, extra=None):
                     good = good and _close(off[k], base[k]) and _close(segs[k][0], base[k]) and _close(segs[k][1], tip[k])
                 if not good:
                     ctx.violation("plot-geo1-coords", "plot_mode_geo1: arrow k is not drawn from sensor k's coordinates along its direction times its mode-shape component", inp)
+                elif not any(nanrow):
+                    _judge_lines(ctx, inp, 1, spec, ax.lines[len(flat):], base)
             else:
                 fig, ax = s.plot_mode_geo2_mpl(_res(Phi), 2, scaleF=scale, color="red")
                 w = expect_geo2(spec)
@@ -1460,6 +1746,8 @@ def oracle_case(ctx, kind, spec, extra=None):
                 if not _close(off, want):
                     ctx.violation("plot-geo2-coords", "plot_mode_geo2_mpl: displayed point != coordinate + mapped value x sign", inp,
                                   observed=off.tolist(), expected=want.tolist())
+                else:
+                    _judge_lines(ctx, inp, 2, spec, ax.lines, want)
         finally:
             plt.close("all")
         # drawing does not change the geometry
@@ -1506,6 +1794,23 @@ def oracle(ctx, scale):
                     s2["drop"] = sorted(set(sub) | {"BG lines", "BG surfaces"})
                 oracle_case(ctx, "optional", s2)
                 ctx.count(f"oracle_optional_geo{which}")
+    # (1b) the same through the file entry points (clause 1), the reader replaced by the generated tables
+    for it in range(ctx.n(30, 400) * scale):
+        which = 1 + it % 2
+        spec = (gen_geo1 if which == 1 else gen_geo2)(rng, multi=(it % 4 < 2))
+        if which == 2 and it % 4 == 1:
+            _distinct_index_sheets(spec, rng)
+        oracle_case(ctx, "byfile", spec)
+        ctx.nontrivial.add(("oracle-byfile", which, spec["ref_ind"] is None, tuple(sorted(spec["opt"]))))
+        ctx.count(f"oracle_byfile{which}")
+        tags = [t for t in CORR1 if t != "dup_label"] if which == 1 else CORR2
+        cs = (corrupt1 if which == 1 else corrupt2)(spec, tags[(it // 2) % len(tags)], rng)
+        if cs is None:
+            ctx.skipped += 1
+        else:
+            oracle_case(ctx, "byfile_fault", cs)
+            ctx.nontrivial.add(("oracle-byfile-fault", which, cs["fault"]))
+            ctx.count(f"oracle_byfile{which}_fault_{cs['fault']}")
     # (2) documented argument forms of def_geo1 / def_geo2
     for it in range(ctx.n(40, 400) * scale):
         which = 1 + it % 2
